@@ -23,6 +23,23 @@ def hostile_strings(rng, universe, n):
     return out
 
 
+def text_scripts():
+    """OP_RETURN outputs whose payload is valid multi-byte UTF-8 text, in every push form, with the multi-byte characters at every
+    alignment (so that any byte offset at which a consumer might cut the text falls inside a character for some of them)"""
+    out = []
+    for ch in ('\u00e9', '\u20ac', '\U0001F600', '\ufffd'):
+        for a in range(4):
+            for n in (30, 120, 300):
+                p = ('x' * a + ch * n).encode()[:n * 3]
+                p = p.decode('utf-8', 'ignore').encode()
+                forms = [b'\x6a' + btc.push(p), b'\x6a' + p]
+                if len(p) <= 255:
+                    forms.append(b'\x6a\x4c' + bytes([len(p)]) + p)
+                forms.append(b'\x6a\x4d' + len(p).to_bytes(2, 'little') + p)
+                out += forms[(a + n) % len(forms):][:2]
+    return out
+
+
 def main(ck, tier, w):
     quick = tier == 'quick'
     seed = run.seed()
@@ -56,6 +73,8 @@ def main(ck, tier, w):
     for coin in btc.COINS:
         for k in range(2 if quick else 12):
             jobs.append((coin, k))
+        jobs.append((coin, -1))         # text payloads, every callback with -vv
+    texts = text_scripts()
 
     def one(j):
         coin, k = j
@@ -68,7 +87,10 @@ def main(ck, tier, w):
 
         def txs_fn(h, c):
             txs = [btc.coinbase(h, None, outs=[{'val': 50 * 10 ** 8, 'spk': btc.p2pkh(r0.randbytes(20))}])]
-            if h >= 1:
+            if h >= 1 and k == -1:
+                txs.append({'ver': 1, 'ins': [{'txid': r0.randbytes(32), 'idx': 1, 'sig': b'\x01\x01', 'seq': 5}],
+                            'outs': [{'val': n, 'spk': x} for n, x in enumerate(texts[h - 1::3])], 'lock': h})
+            elif h >= 1:
                 s = pick[(h * 3) % len(pick)]
                 t = pick[(h * 3 + 1) % len(pick)]
                 u = pick[(h * 3 + 2) % len(pick)]
@@ -85,7 +107,7 @@ def main(ck, tier, w):
         probs = []
         last = None
         for cb in cbs:
-            r = run.run_parser(d, cb, dump=w.mk('out') if cb in cbs[:3] else None, coin=coin, timeout=120, verbose=(k + len(cb)) % 3)
+            r = run.run_parser(d, cb, dump=w.mk('out') if cb in cbs[:3] else None, coin=coin, timeout=120, verbose=(k + len(cb)) % 3 if k >= 0 else 2)
             last = r
             if r.rc != 0:
                 probs.append('%s: exit status %d: %s' % (cb, r.rc, r.stderr[-300:]))
